@@ -3,6 +3,7 @@ import Hl7.Model.Parse
 import Hl7.Model.Message
 import Hl7.Model.Mllp
 import Hl7.Model.Validate
+import Hl7.Model.Heap
 import Hl7.Model.WF
 import Hl7.Gen.Known
 import Hl7.Gen.All
@@ -85,6 +86,39 @@ def mkHandlers (types raising : List (List Char)) (err : Bool) : Mllp.Handlers :
 def showInv (hs : List (List Char)) : Mllp.Inv → String
   | .handler id => "H:" ++ tohex (hs.getD id [])
   | .errHandler _ e => "E:" ++ e
+
+/-- one history on the element-graph core: `HEAP <nodes> <maxreps> <ops>`
+    nodes  = `name:level:version,…`            (ids are positions)
+    maxreps = `name=k,…` or `-`                (STRICT cardinality per child name; unlisted = unbounded)
+    ops    = `A.p.c.v;I.p.c.li.v;R.p.c;X.p.old.new.v;…`  (v = 1 when the structure accepts the child) -/
+def heapShow (h : Heap.Heap) : String :=
+  ";".intercalate (h.map (fun n => ",".intercalate (n.list.map toString) ++ "/" ++
+    (match n.parent with | some p => toString p | none => "-") ++ "/" ++ (match n.tparent with | some p => toString p | none => "-")))
+
+def heapRun (nodes maxreps ops : String) : String :=
+  let h0 : Heap.Heap := (nodes.splitOn ",").filterMap fun t =>
+    match t.splitOn ":" with
+    | [n, l, v] => some { name := n, level := l.toNat!, version := v.toNat! }
+    | _ => none
+  let mr : List (String × Int) := if maxreps == "-" then [] else (maxreps.splitOn ",").filterMap fun t =>
+    match t.splitOn "=" with
+    | [n, k] => some (n, (k.toInt?.getD (-1)))
+    | _ => none
+  let rules (v : Bool) : Heap.Rules := ⟨fun _ _ => v, fun _ name => (mr.lookup name).getD (-1), fun p => p.level == 1⟩
+  let step (acc : Heap.Heap × List String) (o : String) : Heap.Heap × List String :=
+    let (h, out) := acc
+    let r : Heap.Heap × Except Heap.Err Unit :=
+      match o.splitOn "." with
+      | ["A", p, c, v] => Heap.append (rules (v == "1")) p.toNat! c.toNat! h
+      | ["I", p, c, li, v] => Heap.insertAt (rules (v == "1")) p.toNat! c.toNat! li.toNat! h
+      | ["R", p, c] => Heap.remove p.toNat! c.toNat! h
+      | ["X", p, a, b, v] => Heap.replaceChild (rules (v == "1")) p.toNat! a.toNat! b.toNat! h
+      | _ => (h, .error .crash)
+    let tag := match r.2 with
+      | .ok _ => "ok" | .error .childNotValid => "ChildNotValid" | .error .maxChild => "MaxChildLimitReached"
+      | .error .opNotAllowed => "OperationNotAllowed" | .error .crash => "crash"
+    (r.1, out ++ [tag ++ " " ++ heapShow r.1])
+  "|".intercalate ((ops.splitOn ";").foldl step (h0, [])).2
 
 def handle (line : String) : String :=
   match line.splitOn " " with
@@ -171,6 +205,7 @@ def handle (line : String) : String :=
     match tablesFor ver with
     | some T => "ok " ++ ",".intercalate ((WF.badSegments T).filter (fun n => !(Hl7.Gen.Known.segExcluded ver).contains n))
     | none => "bad-args"
+  | ["HEAP", nodes, maxreps, ops] => heapRun nodes maxreps ops
   | ["MTYPE", hx] =>
     match Msg.getMessageType (unhex hx.toList) with
     | .ok o => "ok " ++ optHex o
